@@ -1,6 +1,6 @@
 (* C19 - imports resolve deterministically, load once, dependencies first, packages checked. *)
 From Coq Require Import List Arith String.
-From Bloch Require Import Loader.LoaderModel Loader.LoaderProofs.
+From Bloch Require Import Loader.LoaderModel Loader.LoaderProofs Loader.LoaderCycle.
 Import ListNotations.
 
 (* every successful load, on every file system, search-path list, working directory and entry file:
@@ -28,6 +28,19 @@ Print Assumptions C19_symbol_resolution_order.
 Theorem C19_loading_terminates : forall fs cfg entry, load fs cfg entry <> inr EFuel.
 Proof. exact load_never_out_of_fuel. Qed.
 Print Assumptions C19_loading_terminates.
+
+(* "import cycle" is never a false alarm: it is answered only when some module reaches itself through one or
+   more imports, as they resolve on this file system; and a load that succeeded has no such cycle through any
+   module it loaded *)
+Theorem C19_a_reported_cycle_is_a_cycle_of_the_import_graph : forall fs cfg entry,
+  load fs cfg entry = inr ECycle -> exists c, reach fs cfg c c.
+Proof. exact load_cycle_is_genuine. Qed.
+Print Assumptions C19_a_reported_cycle_is_a_cycle_of_the_import_graph.
+
+Theorem C19_a_successful_load_has_no_cycle_through_a_loaded_module : forall fs cfg entry ord c,
+  load fs cfg entry = inl ord -> In c ord -> ~ reach fs cfg c c.
+Proof. exact successful_load_has_no_cycle_through_a_loaded_module. Qed.
+Print Assumptions C19_a_successful_load_has_no_cycle_through_a_loaded_module.
 
 Local Open Scope string_scope.
 Definition fs_diamond : fsys :=
